@@ -18,3 +18,6 @@ gen_selftest_generic.main(["--quiet"])
 
 import check
 check.wrap_generate()
+
+import gen_hashpad
+gen_hashpad.main([os.path.join(b, "src"), vlib.LEAN])
